@@ -123,6 +123,9 @@ def finish(ctx, explanation, level='other', write=True, quiet=False):
         return 1 if new else (2 if ctx.unrec else 0)
     rep_dir = os.path.join(VERIF, 'reports', pid)
     os.makedirs(rep_dir, exist_ok=True)
+    for old_report in os.listdir(rep_dir):      # reports of an earlier run are not this run's
+        if old_report.startswith('violation_') and old_report.endswith('.json'):
+            os.remove(os.path.join(rep_dir, old_report))
     for r in old:
         print('KNOWN-FINDING: property=%s %s [%s at %s]' % (pid, known[r['key']].get('what', r['detail']), r['rule'], r['where']))
     seen = set()
